@@ -485,6 +485,26 @@ func (e *Exec) mergeStates(conds []string, states []*State) *State {
 			sameGen = false
 		}
 	}
+	// a key of unknown sort that some branch preserved across a havoc ("its value of generation N") while
+	// another branch holds something else (nothing: its own generation's value; or a pending havoc) can only
+	// be merged once its sort is known: force a merge generation, whose symbols are defined lazily from the
+	// branches' states
+	lazyMerge := map[string]bool{}
+	for _, s := range states {
+		for k, v := range s.heap {
+			if _, known := e.keySort[k]; known || !strings.HasPrefix(v, "\x00gen:") {
+				continue
+			}
+			for _, s2 := range states {
+				if s2.heap[k] != v {
+					lazyMerge[k] = true
+				}
+			}
+		}
+	}
+	if len(lazyMerge) > 0 {
+		sameGen = false
+	}
 	if sameGen {
 		out.gen = states[0].gen
 	} else {
@@ -509,6 +529,9 @@ func (e *Exec) mergeStates(conds []string, states []*State) *State {
 	sort.Strings(ks)
 	for _, k := range ks {
 		srt, known := e.keySort[k]
+		if !known && lazyMerge[k] {
+			continue // left out: read through the merge generation when the sort is known
+		}
 		if !known {
 			// preserved with unknown sort in every branch alike: still preserved
 			m0, all := states[0].heap[k], strings.HasPrefix(states[0].heap[k], "\x00gen:")
